@@ -135,6 +135,9 @@ func (g *gen) nhPayload(o *drv.OpSpec) {
 	if g.r.Chance(1, 4) { // pop-top-label true / explicitly false
 		o.X = append(o.X, [2]uint64{3, uint64(1 + g.r.Intn(2))})
 	}
+	if g.r.Chance(1, 4) { // a keyed list of 2-4 encapsulation headers
+		o.X = append(o.X, [2]uint64{4, uint64(2 + g.r.Intn(3))})
+	}
 }
 
 func (g *gen) nhgPayload(o *drv.OpSpec, nhs []uint64) {
